@@ -242,8 +242,10 @@ def _get_item(repo):
                         and o.index("index(key") < o.index("dy.try_iter().map(|iter| iter.count())") \
                         and "if let Some(idx) = index(key, || {" in o:
                     how = "get_value-then-nth(index,len-or-count-on-demand)"
-                elif o == ("{ let idx = index(key, || dy.enumerator_len()).map(Value::from); "
-                           "dy.get_value(idx.as_ref().unwrap_or(key)) }"):
+                elif o == ("{ let idx = index(key, || { dy.enumerator_len() .or_else(|| dy.try_iter().map(|iter| iter.count())) }) "
+                           ".map(Value::from); dy.get_value(idx.as_ref().unwrap_or(key)) }"):
+                    # since fix dad5284 the length offered to `index` is the announced length or, on demand, the
+                    # number of items (the model's `.seq xs` has exactly `xs.length` items either way)
                     how = "get_value(index-or-key)"
                 else:
                     raise KeyError("get_item_opt object arm " + opat)
